@@ -1531,3 +1531,4 @@ def run(rep):
     c01_informed.r01t(rep, F)
     c01_informed.r01u(rep, F)
     c01_informed.r01y(rep, F)
+    c01_informed.r01z(rep, F)
